@@ -555,3 +555,60 @@ def rule_usercode_reach(db: ProgramDB) -> List[Instance]:
                         f"{what}: also reachable from {bad}, outside the evaluation protocol (not covered by the "
                         f"entries' mode override)", line=getattr(node, "lineno", m.lineno)))
     return out
+
+
+# ---------------------------------------------------------------------------------- MODE-SET-REQUESTED
+def rule_mode_set_requested(db: ProgramDB) -> List[Instance]:
+    """symbolic_mode(mode=M) sets exactly M, whatever mode was active before: the entries rely on
+    symbolic_mode(mode=None) switching the mode *off* also when called inside a rule_mode / symbolic_mode block."""
+    out = []
+    sm = db.fn("symbolic:symbolic_mode")
+    cfg = CFG(sm)
+    var = _ctxvar(db)
+    requested = {"None": const(None), "EQLMode.Query": ("sym", "EQLMode.Query"), "EQLMode.Rule": ("sym", "EQLMode.Rule")}
+    ambient = {"None": const(None), "EQLMode.Query": ("obj", "QueryMode"), "EQLMode.Rule": ("obj", "RuleMode")}
+    for rname, rval in requested.items():
+        for aname, aval in ambient.items():
+            def call_hook(c, st, ev, aval=aval):
+                if dotted(c.func) == f"{var}.get":
+                    return aval
+                return None
+
+            def attr_hook(e, st, ev):
+                d = dotted(e)
+                if d in ("EQLMode.Query", "EQLMode.Rule"):
+                    return ("obj", "QueryMode") if d.endswith("Query") else ("obj", "RuleMode")
+                return None
+            ev = AbsEval(db, sm, cfg, call_hook=call_hook, attr_hook=attr_hook)
+            # compare tokens: ambient Rule must compare equal to EQLMode.Rule
+            rv = {"None": const(None), "EQLMode.Query": ("obj", "QueryMode"), "EQLMode.Rule": ("obj", "RuleMode")}[rname]
+            orig_compare = ev._compare
+
+            def _compare(op, l, r, orig=orig_compare):
+                if isinstance(op, (ast.Eq, ast.NotEq, ast.Is, ast.IsNot)) and l[0] == "obj" and r[0] == "obj" \
+                        and l[1] in ("QueryMode", "RuleMode") and r[1] in ("QueryMode", "RuleMode"):
+                    eq = l == r
+                    return {const(eq != isinstance(op, (ast.NotEq, ast.IsNot)))}
+                return orig(op, l, r)
+            ev._compare = _compare
+            IN = ev.run(State({"mode": rv, "query": TOP}), kinds=("n",))
+            got = set()
+            for n in cfg.nodes:
+                if n.region:
+                    continue
+                for c in _node_calls(n):
+                    if dotted(c.func) == "_set_symbolic_mode" and len(c.args) == 1:
+                        for st in IN[n.id]:
+                            # skip the restore call (argument is the saved previous mode)
+                            vals = ev.eval(c.args[0], st)
+                            if isinstance(c.args[0], ast.Name) and c.args[0].id != "mode" and st.get(c.args[0].id) == aval \
+                                    and c.args[0].id != "mode":
+                                continue
+                            got |= vals
+            ok = got == {rv}
+            out.append(inst("MODE-SET-REQUESTED", HOLDS if ok else VIOLATION, sm,
+                            f"symbolic_mode[requested={rname},ambient={aname}]",
+                            f"sets the requested mode" if ok else
+                            f"with ambient mode {aname}, symbolic_mode(mode={rname}) sets {sorted(str(g) for g in got)} instead of "
+                            f"the requested mode: evaluate() can then not switch symbolic mode off inside such a block"))
+    return out
